@@ -1116,6 +1116,36 @@ func Corpus(tier string, embedded []*Schema) []*Schema {
 		f.EnumType = append(f.EnumType, enum("NullValue", "NULL_VALUE", 0))
 		add(&Schema{Name: "lookalike", Files: []*descriptorpb.FileDescriptorProto{f}})
 	}
+	// ---- more oneofs in one message than a machine word has bits (a generator that keeps "oneof already emitted" in a
+	// bitmask handles the first 64), the late ones with two members; and a user package whose name starts like
+	// google.protobuf with reserved field names
+	{
+		const pkg = "vc.manyoneofs"
+		f := file("vc/manyoneofs.proto", pkg, goPkg("manyoneofs", ""))
+		m := newMsg(pkg, "Wide")
+		num := int32(1)
+		for i := 0; i < 67; i++ {
+			o := m.oneof(fmt.Sprintf("o%d", i))
+			m.member(o, fmt.Sprintf("a%d", i), num, tInt32, "")
+			num++
+			if i >= 62 {
+				m.member(o, fmt.Sprintf("b%d", i), num, tString, "")
+				num++
+			}
+		}
+		m.field("tail", num, tBool, "")
+		f.MessageType = append(f.MessageType, m.msg)
+		add(&Schema{Name: "manyoneofs", Files: []*descriptorpb.FileDescriptorProto{f}})
+		g := file("google/protobufx/audit/audit.proto", "google.protobufx.audit", goPkg("gpx", "audit"))
+		am := newMsg("google.protobufx.audit", "Record")
+		am.field("type", 1, tString, "")
+		am.field("range", 2, tInt32, "")
+		ao := am.oneof("get")
+		am.member(ao, "is_valid", 3, tBool, "")
+		am.member(ao, "descriptor", 4, tString, "")
+		g.MessageType = append(g.MessageType, am.msg)
+		add(&Schema{Name: "gpx", Files: []*descriptorpb.FileDescriptorProto{g}})
+	}
 	// ---- valid proto3 the repository's own schemas never use: a public import, an extension declared inside a message,
 	// a dependency whose Go package is called like a local of the generated code
 	{
@@ -1366,6 +1396,11 @@ func Corpus(tier string, embedded []*Schema) []*Schema {
 		// an unknown name after (or before) the catch-all
 		add(&Schema{Name: "unknown_feature_after_all", Files: []*descriptorpb.FileDescriptorProto{g}, Param: "features=all+nosuchfeature", ExpectError: true})
 		add(&Schema{Name: "unknown_feature_before_all", Files: []*descriptorpb.FileDescriptorProto{g}, Param: "features=nosuchfeature+all", ExpectError: true})
+		// the feature names are checked whatever the request contains: also when no proto3 file is to be generated
+		p2 := proto.Clone(f).(*descriptorpb.FileDescriptorProto)
+		p2.Name = proto.String("vc/p2only.proto")
+		p2.Options.GoPackage = proto.String(goPkg("p2only", ""))
+		add(&Schema{Name: "unknown_feature_no_proto3", Files: []*descriptorpb.FileDescriptorProto{p2}, Param: "features=protoc+nosuchfeature", ExpectError: true})
 		g2 := proto.Clone(g).(*descriptorpb.FileDescriptorProto)
 		g2.Options.GoPackage = proto.String(goPkg("featexplicit", ""))
 		g2.Name = proto.String("vc/featexplicit.proto")
